@@ -26,6 +26,10 @@ func safe(f func([]string) string, t []string) (out string) {
 }
 
 func main() {
+	if len(os.Args) > 2 && os.Args[1] == "pidchild" {
+		pidChildMain(os.Args[2])
+		return
+	}
 	in := bufio.NewReaderSize(os.Stdin, 1<<20)
 	out := bufio.NewWriterSize(os.Stdout, 1<<16)
 	defer out.Flush()
